@@ -177,7 +177,35 @@ def heap_size_forwards_all(repo):
     return dict(status="ok", checked=n, detail=f"{n} (struct, field) pairs checked")
 
 
+def _push_forms(repo):
+    forms = set()
+    for path in _src_files(repo):
+        rel = os.path.relpath(path, repo)
+        sf = SourceFile(path, rel)
+        for it in sf.walk():
+            if it.kind == "impl":
+                m = re.search(r"\bPush < (.*) > for ([A-Za-z_0-9]+)", it.name)
+                if m:
+                    x = re.sub(r"'[a-z_]+ ", "", m.group(1))
+                    forms.add(f"{rel}: Push<{x}> for {m.group(2)}")
+    return forms
+
+
+def push_forms_catalogued(repo):
+    """C20 / C01 completeness guard: every hand-written `impl Push<X> for R` in src/ is in the committed catalogue
+    vf/push_forms.txt, i.e. is either under a Verus contract or exercised by a bounded harness.  A form that is not in
+    the catalogue is *undecided* (nothing here examines it), never an alarm."""
+    have = _push_forms(repo)
+    with open(os.path.join(os.path.dirname(os.path.abspath(__file__)), "push_forms.txt")) as f:
+        known = {l.strip() for l in f if l.strip()}
+    extra = sorted(have - known)
+    if extra:
+        return dict(status="undecided", checked=len(have), detail="input forms not in the catalogue (neither under contract nor in a harness): " + "; ".join(extra))
+    return dict(status="ok", checked=len(have), detail=f"{len(have)} Push impls, all catalogued")
+
+
 SCANS = {
+    "push_forms_catalogued": push_forms_catalogued,
     "string_write_paths_closed": string_write_paths_closed,
     "no_shared_state": no_shared_state,
     "clone_field_complete": clone_field_complete,
